@@ -3,6 +3,7 @@ package main
 // Evaluation of specification expressions to SMT terms in a symbolic state.
 
 import (
+	"go/ast"
 	"fmt"
 	"go/constant"
 	"go/token"
@@ -784,6 +785,39 @@ func (f *Frame) lookupName(ctx *EvalCtx, name string) (Val, bool) {
 			if p.Comment == name {
 				if v, ok := f.vals[p]; ok {
 					return v, true
+				}
+			}
+		}
+		// the key variable of `for i := range s`: at the loop head it stands for the number of completed iterations (what `i`
+		// is at the head of the equivalent `for i := 0; i < len(s); i++`), i.e. the hidden range index + 1
+		for _, in := range ctx.loop.Header.Instrs {
+			p, ok := in.(*ssa.Phi)
+			if !ok {
+				break
+			}
+			if p.Comment != "rangeindex" {
+				continue
+			}
+			pv, ok := f.vals[p]
+			if !ok || pv.S == "" {
+				continue
+			}
+			for b := range ctx.loop.Blocks {
+				for _, instr := range b.Instrs {
+					d, ok := instr.(*ssa.DebugRef)
+					if !ok {
+						continue
+					}
+					id, ok := d.Expr.(*ast.Ident)
+					if !ok || id.Name != name {
+						continue
+					}
+					if bo, ok := d.X.(*ssa.BinOp); ok && bo.Op == token.ADD && bo.X == ssa.Value(p) {
+						if e.mode == "bv" {
+							return Val{T: bo.Type(), S: "(bvadd " + pv.S + " " + bvLit("1", 64) + ")"}, true
+						}
+						return Val{T: bo.Type(), S: "(+ " + pv.S + " 1)"}, true
+					}
 				}
 			}
 		}
